@@ -60,7 +60,7 @@ PROPS = {
         "engine": "E-STORE",
         "tiers": {
             "quick": {"shards": 16, "cases": 120, "timeout_s": 900},
-            "thorough": {"shards": 16, "cases": 1500, "timeout_s": 10800},
+            "thorough": {"shards": 16, "cases": 400, "timeout_s": 10800},
         },
         "assumptions": STORE_ASSUMPTIONS + ["the snapshot storage is documented as not concurrency-safe: writers are generated one at a time",
                                             "whether a file is replaced by rename or rewritten in place is decided per call from the inode of the target (same inode => in-place prefixes are crash images too)"],
@@ -133,7 +133,7 @@ MANIFEST_TEXT = {
         "engine": "E-STORE",
         "tiers": {
             "quick": {"shards": 16, "cases": 120, "timeout_s": 900},
-            "thorough": {"shards": 16, "cases": 1500, "timeout_s": 10800},
+            "thorough": {"shards": 16, "cases": 400, "timeout_s": 10800},
         },
         "assumptions": STORE_ASSUMPTIONS + ["the snapshot storage is documented as not concurrency-safe: writers are generated one at a time",
                                             "whether a file is replaced by rename or rewritten in place is decided per call from the inode of the target (same inode => in-place prefixes are crash images too)"],
